@@ -35,7 +35,7 @@ def harnesses(tier, findings):
 
 META = dict(
     level="model_checking",
-    bounds=dict(quick="append step: packet 0..4 bytes at any 64-bit offset, every short-write pattern; skeleton: 2 acquisitions x 2 appends x 0..4 bytes, every URI spelling",
+    bounds=dict(quick="append step: packet 0..4 arbitrary bytes, and 1..2 whole frames with image bytes 0..9, at any 64-bit offset, every short-write pattern (<= 4 short results for the framed packets), one pwrite failing with errno in {EINTR, EIO, EAGAIN, ENOSPC} or writing nothing; skeleton: 2 acquisitions x 2 appends x 0..4 bytes, every URI spelling",
                 thorough="append step: packet 0..8 bytes; skeleton: 2 x 3 x 0..8 bytes and 2 x 4 x 0..4 bytes"),
     outside="re-using the SAME path in a later acquisition (file_create does not truncate; the property speaks of other paths); paths other than a/b; packets longer than the bound; frames are arbitrary bytes (raw.c does not parse them)",
     assumptions=["syscall model env/fs_model.c (open/flock/pwrite/close/access/unlink/errno) under the real platform.c",
